@@ -1,4 +1,5 @@
 import GeoVerif.Proofs.TM
+import GeoVerif.Proofs.TMX
 import GeoVerif.Proofs.TMCertGF
 import GeoVerif.Proofs.TMCertFG
 import GeoVerif.Series.AuxDecode
@@ -157,5 +158,180 @@ theorem alp_is_aux : checkAlpAux = true := by decide +kernel
 
 /-- likewise `−betcoeff` = the `χ ← μ` table -/
 theorem bet_is_aux : checkBetAux = true := by decide +kernel
+
+
+/-! ## 4. `extendp`: the wrapper does not fold (both entry points, every kernel) -/
+
+/-- **`extendp = true`, Forward**: no parity folding and no far side for *any* input — the kernel is called on `(lat, lon − lon0)` as they are
+    and its answer is only scaled (this is the convention seeded change C06F broke for `Reverse`) -/
+theorem tm_extendp_forward (c : Cfg) (hc : c.ext = true) (K : F64 → F64 → KOut) (lat d : F64) :
+    forwardD c K lat d =
+      ⟨c.scale (K lat d).q, c.scale (K lat d).p, (K lat d).gamma,
+       if c.series then MathF.angNormalize (K lat d).gamma else (K lat d).gamma, (K lat d).k * c.k0, c.scale (K lat d).p⟩ :=
+  forward_extendp c hc K lat d
+
+/-- **`extendp = true`, Reverse**: the kernel is called on `(ξ, η)` as they are (no `xisign`, no `etasign`, no far side) -/
+theorem tm_extendp_reverse (c : Cfg) (hc : c.ext = true) (K : F64 → F64 → KOut) (lon0 xi eta : F64) :
+    (reverseZ c K lon0 xi eta).u = (K xi eta).p ∧ (reverseZ c K lon0 xi eta).vraw = (K xi eta).q ∧
+    (reverseZ c K lon0 xi eta).graw = (K xi eta).gamma ∧ (reverseZ c K lon0 xi eta).k = (K xi eta).k * c.k0 :=
+  reverse_extendp c hc K lon0 xi eta
+
+/-! ## 5. exact form: the Newton inversions, for every elliptic-function kernel `Ell` (`Model/TMExact.lean`, executed by the driver
+on the values the implementation's own `EllipticFunction` objects return) -/
+open GeoVerif.TMX GeoVerif.Proofs.TMX
+
+/-- **the loop shared by `zetainv` and `sigmainv`** (any step function, any number type): it takes at most `fuel` steps and returns the
+    Newton iterate after exactly `steps` steps -/
+theorem tmx_newton_iterate {α : Type} [RealLike α] (step : Nat → α → α → α × α) (thr : α) (fuel i : Nat) (trip : Bool) (u v : α) :
+    let r := newton step thr fuel i trip u v
+    i ≤ r.steps ∧ r.steps ≤ i + fuel ∧ (r.u, r.v) = iterate step (r.steps - i) i (u, v) :=
+  newton_iterate step thr fuel i trip u v
+
+/-- **exit through the convergence test** (`if (trip) break`): iterate `m` is the first whose correction is not `≥ thr`, exactly one more
+    step was taken, `m + 2 ≤ fuel` -/
+theorem tmx_newton_break {α : Type} [RealLike α] (step : Nat → α → α → α × α) (thr : α) (fuel i : Nat) (u v : α)
+    (hb : (newton step thr fuel i false u v).brk = true) :
+    ∃ m, (newton step thr fuel i false u v).steps = i + m + 2 ∧ m + 2 ≤ fuel ∧
+      long step thr i (u, v) m = false ∧ (∀ m' < m, long step thr i (u, v) m' = true) ∧
+      ((newton step thr fuel i false u v).u, (newton step thr fuel i false u v).v) = iterate step (m + 2) i (u, v) :=
+  newton_break step thr fuel i u v hb
+
+/-- non-vacuity: a step function whose corrections vanish trips at once and leaves through the convergence test after two steps -/
+example : (newton (fun _ _ _ => ((0 : ℝ), (0 : ℝ))) (1 : ℝ) 10 0 false 5 7).brk = true ∧
+    (newton (fun _ _ _ => ((0 : ℝ), (0 : ℝ))) (1 : ℝ) 10 0 false 5 7).steps = 2 := by
+  simp [newton]
+
+/-- **exit at the cap** (silent: `GEOGRAPHICLIB_PANIC` is `false` for binary64): all `fuel` steps were taken and every correction tested
+    before the last one was `≥ thr`; `trip` at exit means the last step was the first short one -/
+theorem tmx_newton_cap {α : Type} [RealLike α] (step : Nat → α → α → α × α) (thr : α) (fuel i : Nat) (u v : α)
+    (hb : (newton step thr fuel i false u v).brk = false) :
+    (newton step thr fuel i false u v).steps = i + fuel ∧ (∀ m, m + 1 < fuel → long step thr i (u, v) m = true) ∧
+    ((newton step thr fuel i false u v).trip = true → 0 < fuel ∧ long step thr i (u, v) (fuel - 1) = false) :=
+  newton_cap step thr fuel i u v hb
+
+example : (newton (fun _ _ _ => ((1 : ℝ), (0 : ℝ))) (1 : ℝ) 3 0 false 5 7).brk = false := by simp [newton]
+
+/-- **iteration caps** (*Gen*: `numit_` is read from `TransverseMercatorExact.hpp` on every run): `zetainv` and `sigmainv` evaluate the
+    elliptic functions at most `numit_` times, for every kernel, every ellipsoid, every input, over any number type -/
+theorem tmx_iteration_cap {α : Type} [RealLike α] (f : α) (ext : Bool) (E : Ell α) (a b : α) :
+    (zetainv (mkPar f ext) E a b).1.steps ≤ Gen.TMExact.numit ∧ (sigmainv (mkPar f ext) E a b).1.steps ≤ Gen.TMExact.numit :=
+  ⟨zetainv_cap (mkPar f ext) E a b, sigmainv_cap (mkPar f ext) E a b⟩
+
+/-- **`zetainv` left through its convergence test** (over `ℝ`, every kernel): some Newton iterate `w_m`, `m + 2 ≤ numit_`, has a forward
+    image whose residual in the metric of the Newton step, `|dw/dζ|²·((τ'(w_m) − τ')²/(1 + τ'²) + (λ(w_m) − λ)²)`, is below
+    `tol2_/max(ψ, 1)²`, all earlier iterates had not, and the result is the iterate two Newton steps later.
+    Not proved (needs the analytic properties of the Jacobi functions, which are kernels here): that the loop does leave through this test. -/
+theorem tmx_zetainv_converged (p : Par ℝ) (E : Ell ℝ) (taup lam : ℝ) (hnd : (zStart p E taup lam).done = false)
+    (hb : (zetainv p E taup lam).1.brk = true) :
+    ∃ m, m + 2 ≤ p.numit ∧ (zetainv p E taup lam).1.steps = m + 2 ∧
+      (let w := iterate (zStep p E taup lam) m 0 ((zStart p E taup lam).u, (zStart p E taup lam).v)
+       let j := E.am m w.1 w.2
+       ((dwdzeta p j).1 ^ 2 + (dwdzeta p j).2 ^ 2) *
+         ((((zeta p j).1 - taup) * (1 / Real.sqrt (1 ^ 2 + taup ^ 2))) ^ 2 + ((zeta p j).2 - lam) ^ 2) < zThr p taup) ∧
+      (∀ m' < m, long (zStep p E taup lam) (zThr p taup) 0 ((zStart p E taup lam).u, (zStart p E taup lam).v) m' = true) ∧
+      ((zetainv p E taup lam).1.u, (zetainv p E taup lam).1.v) =
+        iterate (zStep p E taup lam) (m + 2) 0 ((zStart p E taup lam).u, (zStart p E taup lam).v) :=
+  zetainv_converged p E taup lam hnd hb
+
+/-- non-vacuity: a parameter set and a kernel (constant Jacobi values of the point `w = 0`) for which `zetainv` and `sigmainv` do leave
+    through the convergence test -/
+noncomputable def pEx : Par ℝ := ⟨0, 1, 0, 1, 1 / 1000, 1 / 100, 10, false⟩
+noncomputable def eEx : Ell ℝ := ⟨2, 2, 2, 1, fun _ _ _ => ⟨0, 1, 1, 0, 1, 1⟩, fun _ _ _ _ => (0, 0)⟩
+
+example : (zStart pEx eEx 0 0).done = false ∧ (zetainv pEx eEx 0 0).1.brk = true := by
+  have h : (zStart pEx eEx 0 0).done = false := by simp [zStart, zetainv0, pEx, eEx]
+  refine ⟨h, ?_⟩
+  rw [zetainv_unfold pEx eEx 0 0 h]
+  simp [newton, zStep, zetaStep, zeta, dwdzeta, zThr, pEx, eEx, atan2_zero_pos, Proofs.TMX.max_real]
+
+/-- **`sigmainv` left through its convergence test**: some Newton iterate `w_m` has `|dw/dσ|²·|σ(w_m) − (ξ + iη)|² < tol2_` -/
+theorem tmx_sigmainv_converged (p : Par ℝ) (E : Ell ℝ) (xi eta : ℝ) (hnd : (sigmainv0 p E xi eta).done = false)
+    (hb : (sigmainv p E xi eta).1.brk = true) :
+    ∃ m, m + 2 ≤ p.numit ∧ (sigmainv p E xi eta).1.steps = m + 2 ∧
+      (let w := iterate (sigmaStep p E xi eta) m 0 ((sigmainv0 p E xi eta).u, (sigmainv0 p E xi eta).v)
+       let j := E.am m w.1 w.2
+       let s := sigma p j w.2 (E.einc m w.1 w.2 j)
+       ((dwdsigma p j).1 ^ 2 + (dwdsigma p j).2 ^ 2) * ((s.1 - xi) ^ 2 + (s.2 - eta) ^ 2) < p.tol2) ∧
+      (∀ m' < m, long (sigmaStep p E xi eta) p.tol2 0 ((sigmainv0 p E xi eta).u, (sigmainv0 p E xi eta).v) m' = true) ∧
+      ((sigmainv p E xi eta).1.u, (sigmainv p E xi eta).1.v) =
+        iterate (sigmaStep p E xi eta) (m + 2) 0 ((sigmainv0 p E xi eta).u, (sigmainv0 p E xi eta).v) :=
+  sigmainv_converged p E xi eta hnd hb
+
+example : (sigmainv0 pEx eEx 0 0).done = false ∧ (sigmainv pEx eEx 0 0).1.brk = true := by
+  have h0 : sigmainv0 pEx eEx 0 0 = ⟨false, 0, 0, .plain⟩ := by
+    simp only [sigmainv0, pEx, eEx, ofDec_real, ltb_real]
+    norm_num
+  have h : (sigmainv0 pEx eEx 0 0).done = false := by rw [h0]
+  refine ⟨h, ?_⟩
+  rw [sigmainv_unfold pEx eEx 0 0 h, h0]
+  simp [newton, sigmaStep, sigma, dwdsigma, pEx, eEx]
+
+/-! ## 6. exact form: the closed forms as coded are Lee's (1976), the Jacobi functions being abstract
+
+Mathlib has no Jacobi elliptic functions.  The six values `sn, cn, dn (u | e²)`, `sn, cn, dn (v | 1 − e²)` are arbitrary reals subject to
+`sn² + cn² = 1`, `dn² + k² sn² = 1` (`JacobiRel`; the harness checks these two relations on what `EllipticFunction::am` returns, op `tmxf`), and the
+functions of the complex argument `w = u + iv` are *defined* by the addition theorem (`snW, cnW, dnW`; A+S 16.21.2–4), for which the same two
+relations are proved to persist. -/
+
+/-- the complex values given by the addition theorem satisfy `sn² w + cn² w = 1`, `dn² w + e² sn² w = 1` -/
+theorem tmx_complex_jacobi (mu : ℝ) (j : Jac ℝ) (hj : JacobiRel mu j) (hD : denW mu j ≠ 0) :
+    snW mu j ^ 2 + cnW mu j ^ 2 = 1 ∧ dnW mu j ^ 2 + (mu : ℂ) * snW mu j ^ 2 = 1 :=
+  complex_jacobi_rel mu j hj hD
+
+/-- a concrete instance of `JacobiRel` (`e² = 1/4`, `sn u = 3/5`, `sn v = 4/5`; so the theorems below are not vacuous) -/
+noncomputable def jEx : Jac ℝ := ⟨3 / 5, 4 / 5, Real.sqrt (91 / 100), 4 / 5, 3 / 5, Real.sqrt (13 / 25)⟩
+example : JacobiRel (1 / 4) jEx ∧ denW (1 / 4) jEx ≠ 0 := by
+  refine ⟨⟨by norm_num [jEx], ?_, by norm_num [jEx], ?_⟩, by norm_num [jEx, denW]⟩
+  · simp only [jEx]; rw [Real.sq_sqrt (by norm_num)]; norm_num
+  · simp only [jEx]; rw [Real.sq_sqrt (by norm_num)]; norm_num
+
+/-- **`zeta`, real part = Lee 54.17**: `τ' = sinh ψ`, `ψ = atanh(sn u · dn v) − e·atanh(e · sn u / dn v)` (the code evaluates the two `atanh` as
+    `asinh(x/√(1 − x²))` with `1 − x²` rewritten by the Jacobi relations, and `sinh` of the difference without cancellation) -/
+theorem tmx_zeta_taup (p : Par ℝ) (hp : ParOK p) (j : Jac ℝ) (hj : JacobiRel p.mu j)
+    (hdn : 0 < j.dnv) (hx : |j.snu * j.dnv| < 1) (hy : |p.e * j.snu| < j.dnv) :
+    (zeta p j).1 = Real.sinh (artanh (j.snu * j.dnv) - p.e * artanh (p.e * j.snu / j.dnv)) :=
+  zeta_taup_lee p hp j hj hdn hx hy
+
+/-- non-vacuity: `e = 1/2` with the instance `jEx` -/
+noncomputable def pLee : Par ℝ := ⟨1 / 4, 3 / 4, 1 / 2, 1, 1, 1, 10, false⟩
+example : ParOK pLee ∧ 0 < jEx.dnv ∧ |jEx.snu * jEx.dnv| < 1 ∧ |pLee.e * jEx.snu| < jEx.dnv := by
+  have h1 : (18 / 25 : ℝ) < Real.sqrt (13 / 25) := by
+    rw [show (18 / 25 : ℝ) = Real.sqrt ((18 / 25) ^ 2) from (Real.sqrt_sq (by norm_num)).symm]
+    exact Real.sqrt_lt_sqrt (by norm_num) (by norm_num)
+  have h2 : Real.sqrt (13 / 25) < 1 := by
+    rw [show (1 : ℝ) = Real.sqrt 1 from Real.sqrt_one.symm]
+    exact Real.sqrt_lt_sqrt (by norm_num) (by norm_num)
+  refine ⟨⟨by norm_num [pLee], by norm_num [pLee], by norm_num [pLee]⟩, by simp only [jEx]; linarith, ?_, ?_⟩
+  · simp only [jEx]; rw [abs_lt]; constructor <;> nlinarith
+  · simp only [jEx, pLee]; rw [abs_lt]; constructor <;> linarith
+
+/-- **`zeta`, imaginary part = Lee 54.17**: `λ = arg(cn u cn v + i dn u sn v) − e·arg(dn u cn v + i e cn u sn v)` … -/
+theorem tmx_zeta_lam (p : Par ℝ) (j : Jac ℝ)
+    (h1 : Real.sqrt (RealLike.sq j.cnu + p.mv * RealLike.sq (j.snu * j.snv)) ≠ 0)
+    (h2 : Real.sqrt (p.mu * RealLike.sq j.cnu + p.mv * RealLike.sq j.cnv) ≠ 0) :
+    (zeta p j).2 = Complex.arg ⟨j.cnu * j.cnv, j.dnu * j.snv⟩ - p.e * Complex.arg ⟨j.dnu * j.cnv, p.e * j.cnu * j.snv⟩ :=
+  zeta_lam_lee p j h1 h2
+
+/-- … and these two arguments are `Im atanh(sn w)` and `Im atanh(e sn w)`: `(1 + s)·conj(1 − s)·D = (…)²` with `D = 1 − dn²u sn²v`, for
+    `s = sn w` and `s = e·sn w`; likewise `|1 + sn w|²(1 − x)² = |1 − sn w|²(1 + x)²`, `x = sn u dn v`, i.e. `Re atanh(sn w) = atanh(sn u dn v)` -/
+theorem tmx_zeta_is_lee_complex (e mu : ℝ) (he : e ^ 2 = mu) (j : Jac ℝ) (hj : JacobiRel mu j) (hD : denW mu j ≠ 0) :
+    (1 + snW mu j) * (starRingEnd ℂ) (1 - snW mu j) * (denW mu j : ℂ) = (⟨j.cnu * j.cnv, j.dnu * j.snv⟩ : ℂ) ^ 2 ∧
+    (1 + (e : ℂ) * snW mu j) * (starRingEnd ℂ) (1 - (e : ℂ) * snW mu j) * (denW mu j : ℂ) = (⟨j.dnu * j.cnv, e * j.cnu * j.snv⟩ : ℂ) ^ 2 ∧
+    Complex.normSq (1 + snW mu j) * (1 - j.snu * j.dnv) ^ 2 = Complex.normSq (1 - snW mu j) * (1 + j.snu * j.dnv) ^ 2 :=
+  ⟨lee_atanh_im mu j hj hD, lee_atanh_e_im e mu he j hj hD, lee_atanh_re mu j hj hD⟩
+
+/-- **`dwdzeta` = Lee 54.21 and `dwdsigma` = reciprocal of Lee 55.9**: the Newton Jacobians as coded are `cn w · dn w/(1 − e²)` and
+    `dn² w/(1 − e²)` (identities of rational functions in the six values) -/
+theorem tmx_jacobians (p : Par ℝ) (j : Jac ℝ) (hD : denW p.mu j ≠ 0) (hmv : p.mv ≠ 0) :
+    (⟨(dwdzeta p j).1, (dwdzeta p j).2⟩ : ℂ) = cnW p.mu j * dnW p.mu j / (p.mv : ℂ) ∧
+    (⟨(dwdsigma p j).1, (dwdsigma p j).2⟩ : ℂ) = dnW p.mu j ^ 2 / (p.mv : ℂ) :=
+  ⟨dwdzeta_lee p j hD hmv, dwdsigma_lee p j hD hmv⟩
+
+/-- the rewritings the comments of `sigma` and `Scale` announce (Lee 55.4, 55.13): `e² cn²u + (1 − e²) cn²v = dn²u + dn²v − 1` and
+    `(1 − e²) sn²v + cn²u dn²v = 1 − sn²u dn²v` -/
+theorem tmx_sigma_scale_rewrites (p : Par ℝ) (hp : ParOK p) (j : Jac ℝ) (hj : JacobiRel p.mu j) :
+    p.mu * RealLike.sq j.cnu + p.mv * RealLike.sq j.cnv = j.dnu ^ 2 + j.dnv ^ 2 - 1 ∧
+    p.mv * RealLike.sq j.snv + RealLike.sq (j.cnu * j.dnv) = 1 - j.snu ^ 2 * j.dnv ^ 2 :=
+  sigma_scale_rewrites p hp j hj
 
 end GeoVerif.Props.C06
